@@ -4,6 +4,7 @@
 #include <string>
 #include <string_view>
 #include <cctype>
+#include <cstdlib>
 #include <vector>
 namespace sqf::parser::config
 {
@@ -136,13 +137,13 @@ namespace sqf::parser::config
                     // Check if line comment start
                     if (len_ident_match(iter, "#line"))
                     {
-                        iter += 6;
+                        iter += (m_end - iter) < 6 ? (m_end - iter) : 6;
 
                         // Read in line num
                         auto start = iter;
                         for (; iter != m_end && *iter != '\n' && *iter != ' '; iter++);
                         std::string str_tmp(start, iter);
-                        m_line = static_cast<size_t>(std::stoul(str_tmp));
+                        m_line = static_cast<size_t>(std::strtoul(str_tmp.c_str(), nullptr, 10));
 
                         // Try skip to file
                         iter += len_match<' ', '\t'>(iter);
